@@ -105,6 +105,6 @@ func C12(tier string) int {
 		Extra: func(tier string, cov map[string]interface{}) []string {
 			return append(goldenCheck(tier, cov), bigFreelistFiles(tier, cov)...)
 		},
-		Quick:       100 * time.Second, Thorough: 25 * time.Minute,
+		Quick: 100 * time.Second, Thorough: 25 * time.Minute,
 	}, tier)
 }
